@@ -31,7 +31,7 @@ from ..tok import S
 
 PID = "C14"
 COQ_HEADER = ("From Coq Require Import NArith List Bool.\nImport ListNotations.\n"
-              "From SK Require Import lib.Tok model.C14_Model model.C14_CrnModel.\nLocal Open Scope N_scope.\n")
+              "From SK Require Import lib.Tok model.C14_Model model.C14_CrnModel model.C14_WorkersModel.\nLocal Open Scope N_scope.\n")
 SHARD = 40
 IMPL_TIMEOUT = 1500
 COQ_TIMEOUT = 900
@@ -422,11 +422,30 @@ def _cfg(case):
 def coq_case(case):
     k = case["kind"]
     if k == "runtime":
-        if case["what"] not in ("validate", "balance"):
+        if not _in_model(case):
             return None
         side = _read_side(case)
         if side is None:
             return "L []"
+        if case["what"] == "batch_jobs":
+            # contents: distinct substrate strings 0.., rule strings 100000..; the parent is modelled as having served the first two
+            # entries serially before (a filled cache is pickled to the workers; by C14_fit_workers this changes nothing)
+            sid = {}
+            subs = [sid.setdefault(s_, len(sid)) for s_ in case["subs"]]
+            rid = {}
+            rules = [100000 + rid.setdefault(r, len(rid)) for r in case["rules"]]
+            seen, tb = set(), []
+            for si, ri, one in side["table"]:
+                kk = (subs[si], rules[ri])
+                if kk not in seen:
+                    seen.add(kk)
+                    tb.append([[kk[0], kk[1], case["inv"]], one])
+            jobs = [j for j in case["jobs"] for _ in range(2 if case.get("twice") else 1)]
+            cfg = "(mkCfg %s %s %s)" % (cbool(case.get("cache", True)), "(N.to_nat %s)" % cN(case.get("max", 32768)),
+                                        cbool(case.get("opts", {}).get("dedupe", True)))
+            return "run_batch_jobs %s %s %s %s %s %s %s" % (
+                cfg, _table(tb), clist([cN(x) for x in rules]), clist([cN(x) for x in subs]), clist([cN(x) for x in subs[:2]]),
+                cbool(case["inv"]), clist([cpair(cpair(cnat(nj), cbool(pr)), cnat(rj)) for nj, pr, rj in jobs]))
         jobs = clist([cnat(j) for j in case["jobs"]])
         if case["what"] == "validate":
             return "run_validate %s %s" % (jobs, clist([clist([cbool(x) for x in col]) for col in side["cols"]]))
@@ -593,9 +612,15 @@ def _oracle_cluster(case):
     return fails[:3]
 
 
+def _in_model(case):
+    """worker-count cases the Gallina models evaluate: validate / balance (rows-parallel model) and the batch_jobs cases that carry
+    the single-entry reference (worker-process model, coq/model/C14_WorkersModel.v)"""
+    return case["what"] in ("validate", "balance") or (case["what"] == "batch_jobs" and bool(case.get("single")))
+
+
 def _oracle_runtime(case):
-    vals = _runtime_result(case, consume=True) if case["what"] in ("validate", "balance") else _runtime(case)
-    vals = [[lab, v] for lab, v in vals if lab != "__ref__"]
+    vals = _runtime_result(case, consume=True) if _in_model(case) else _runtime(case)
+    vals = [[lab, v] for lab, v in vals if lab not in ("__ref__", "__table__")]
     base = json.dumps(vals[0][1], sort_keys=True, default=str)
     fails = []
     if case["what"] == "validate":
@@ -654,6 +679,21 @@ def _impl_runtime(case):      # noqa: F811
         posr = {d["reactions"]: i for i, d in enumerate(case["data"])}
         row = lambda d: posn.get(d["n"], -1) if "n" in d else posr.get(d["reactions"], -1)
         return [[[row(d) for d in v[0]], [row(d) for d in v[1]]] for lab, v in vals if lab.startswith("n_jobs=")]
+    if _in_model(case):
+        # batch_jobs with the single-entry reference: per worker configuration (and per fit call) the per-entry outputs as result
+        # codes; the execute table of the worker model = the single-entry, single-rule results
+        vals = _runtime_result(case, consume=False)
+        table = [v for lab, v in vals if lab == "__table__"][0]
+        codes = {}
+        tb = [[si, ri, [codes.setdefault(x, len(codes)) for x in one]] for si, ri, one in table]
+        key = "syn_bw" if case["inv"] else "syn_fw"
+        obs = []
+        for lab, v in vals:
+            if lab.startswith("entry_jobs="):
+                for res in (v if case.get("twice") else [v]):
+                    obs.append([1, [[codes.setdefault(x, len(codes)) for x in d[key]] for d in res]])
+        _write_side(case, dict(table=tb))
+        return obs
     return [0]
 
 
@@ -880,7 +920,7 @@ def _runtime_cases(tier, rng, us, ec):
     rx = us[i0:i0 + (6 if q else 12)]
     jobs = [[1, False, 1], [2, False, 1], [3, False, 1], [8, False, 1], [1, True, 2]] if q else \
         [[k, False, 1] for k in range(1, 9)] + [[1, True, 2], [1, True, 5], [2, True, 2]]
-    cases.append(dict(kind="runtime", what="batch_jobs", subs=[r.split(">>")[0] for r in rx], rules=rx[:3], inv=False, jobs=jobs))
+    cases.append(dict(kind="runtime", what="batch_jobs", subs=[r.split(">>")[0] for r in rx], rules=rx[:3], inv=False, jobs=jobs, single=True))
     # every option of the reactor must reach the worker processes: the four explicit_h / implicit_temp combinations (they give four different
     # answers on templates written with explicit hydrogens), strategy, dedupe, direction, cache off / tiny, dict entries, a second fit
     # on the same object; each compared with the serial run AND with every entry alone (SynReactor rule by rule)
@@ -1158,12 +1198,16 @@ RULE = ("hist: histories of alloc/apply/release/gc at _RuleApplier (non-trivial:
 EXHAUSTIVE = {"quick": False, "thorough": False}
 EXPLANATION = ("Theorems: cache transparency for every allocator / GC schedule / cache size (pinned key discipline), refutation for the "
                "unpinned discipline, fit = map single with order-preserving first-occurrence de-duplication, batched clustering = "
-               "one-shot at partition level, parallel SynCRN.build = serial build with every result attributed to the rule of its index.  Correspondence: the observed id()/dealloc trace of each run is replayed through the "
+               "one-shot at partition level, parallel SynCRN.build = serial build with every result attributed to the rule of its index, fit with worker processes (pickled applier copies) = map single.  Correspondence: the observed id()/dealloc trace of each run is replayed through the "
                "Gallina heap+cache machine and compared entry by entry (hit flags, results, final cache keys, fit outputs). "
                "The sub-space 'all histories of <=4 operations after new;new;apply, cache sizes 1 and 2, LIFO allocator' is enumerated completely.")
 TRUSTED_BASE = [
     "Coq 8.16.1 kernel + vm_compute (no native_compute)",
-    "hand-written models coq/model/C14_Model.v (batch_reactor.py / batch_cluster.py) and coq/model/C14_CrnModel.v (syncrn.py) tied to the code by the per-run correspondence",
+    "hand-written models coq/model/C14_Model.v (batch_reactor.py / batch_cluster.py), coq/model/C14_CrnModel.v (syncrn.py) and coq/model/C14_WorkersModel.v "
+    "(what pickling a task does to the applier: copies with new identities / addresses, cache keys unchanged) tied to the code by the per-run correspondence",
+    "pickle / cloudpickle semantics as modelled by [ship]: copies carry the contents of the originals, sharing inside one pickle is preserved, nothing a worker writes "
+    "to its copy of the cache comes back (the worker-side id()/deallocation trace is NOT observed: theorems cover every legal one, the correspondence evaluates an "
+    "adversarial synthetic one)",
     "harness instrumentation harness/gen/c14_trace.py (wrappers installed from the harness process; weakref.finalize as the deallocation witness)",
     "CPython object model: `is`/id() semantics, an address is reused only after deallocation, dict insertion order",
     "joblib/loky and concurrent.futures return results in submission order (tested for worker counts 1..8, not proved)",
@@ -1172,7 +1216,9 @@ ASSUMPTIONS = ["graphs handed to the applier are not mutated while cached (Batch
                "cache_maxsize >= 1 (0 raises StopIteration in the eviction line)",
                "the reactor is a function of the contents of substrate and rule (monitored: table conflicts raise)"]
 TESTED_NOT_PROVED = [
-    "BatchReactor entry_n_jobs 1..8 and parallel_rules/rule_n_jobs vs serial (loky processes)",
+    "BatchReactor entry_n_jobs 1..8 and parallel_rules/rule_n_jobs vs serial: the real loky pools are compared at run time with the serial run, with every entry alone "
+    "(SynReactor rule by rule) and with the worker-process model fed with the single-entry single-rule results — for every explicit_h / implicit_temp combination, "
+    "strategy, dedupe, direction, cache off / tiny, dict entries, two fits on one object; that the options reach the worker processes is tested, not proved",
     "AAMValidator.validate_smiles n_jobs 1..8", "BalanceReactionCheck.dicts_balance_check n_jobs 1..8",
     "SynCRN.build(parallel=True, max_workers=k) vs serial: identical graph (nodes, attributes, edges) and identical full event records "
     "(crn cases: rule lists whose leading rules produce no task) — the real process pool is compared at run time; the Gallina model of build "
@@ -1187,7 +1233,9 @@ LEVEL_TEXT = ("Machine-checked proof (Coq) over an executable heap+cache state m
               "SynCRN.build (task generation per step, chunked executor.map, integration into the event graph): the parallel build equals the serial "
               "build for every rule list / configuration / worker count — also over successive build calls on one object —, every integrated result "
               "carries the index of the rule that produced it, and validate_smiles / dicts_balance_check return, for every worker count, the per-row "
-              "results of the single-row entry points in input order. "
+              "results of the single-row entry points in input order; and over a model of worker processes (a task is pickled: the applier arrives as a copy whose cache keys "
+              "are the parent's addresses and whose pinned objects are copies): for every parent history, every shipped cache, every address assignment and every legal "
+              "worker trace each application returns execute(contents), and fit with entry-level or rule-level workers = map single for every order-preserving cut of the entry list. "
               "The model is tied to the code by replaying the observed id()/deallocation trace of every generated run through the machine, and the "
               "serial run's (rule, mixture) -> products table of every network-expansion case through the build model (compared with the serial and "
               "the parallel runs with 1, 2, 3 workers on full event records).")
